@@ -467,6 +467,19 @@ package commonmark
 //@ spec Rule9(of int, on int, cf int, cn int) bool = !((HasBit(of, 4) || HasBit(cf, 2)) && (on + cn) % 3 == 0 && !(on % 3 == 0 && cn % 3 == 0))
 //@ spec DelimMatch(ot int, of int, on int, ct int, cf int, cn int) bool = (ot == 1 || ot == 2) && ot == ct && HasBit(of, 2) && HasBit(cf, 4) && Rule9(of, on, cf, cn)
 
+//@ -- the characters around a delimiter run: the start and the end of the text count as white space (section 6.2)
+//@ spec PrevRune(s []byte, a int) int = a > 0 ? lastrune(s[0:a]) : ' '
+//@ spec NextRune(s []byte, b int) int = b < len(s) ? firstrune(s[b:]) : ' '
+
+//@ func emphasisFlags
+//@   requires 0 <= span.Start && span.Start <= span.End && span.End <= len(source) && span.Start < len(source)
+//@   ensures[open] HasBit(result, 2) <==> CanOpen(source[span.Start] == '*', UWhitespace(PrevRune(source, span.Start)), UPunct(PrevRune(source, span.Start)),
+//@       UWhitespace(NextRune(source, span.End)), UPunct(NextRune(source, span.End)))
+//@   ensures[close] HasBit(result, 4) <==> CanClose(source[span.Start] == '*', UWhitespace(PrevRune(source, span.Start)), UPunct(PrevRune(source, span.Start)),
+//@       UWhitespace(NextRune(source, span.End)), UPunct(NextRune(source, span.End)))
+//@   ensures[only] result == 0 || result == 2 || result == 4 || result == 6
+//@   serves C11, C04
+
 //@ func isEmphasisDelimiterMatch
 //@   requires 0 <= open.n && open.n <= 281474976710656 && 0 <= close.n && close.n <= 281474976710656
 //@   ensures[rules] result <==> DelimMatch(open.typ, open.flags, open.n, close.typ, close.flags, close.n)
